@@ -5,6 +5,7 @@ Statement ids are numbered by the harness in the order of Python's `sorted` on t
 strings, so `Nat` order is the order the code sorts by.  Import-free apart from the models
 it composes.
 -/
+import Dagrt.Model.Basic
 import Dagrt.Model.Simplify
 import Dagrt.Model.Verify
 namespace Dagrt.Lower
